@@ -4,18 +4,20 @@ import zlib
 from .. import common as C
 
 MANIFEST = dict(
-    text="Lean 4 theorems over an executable chunk-level model of src/chunk.c (append family, steal, "
-         "steal_with_tempfiles incl. pwritev partial-write recovery and to_tempfiles, mark_written, "
-         "compact, remove_empty, peek/read/read_squash, append_cq_range, reset) with scripted write/mkstemp "
-         "fault schedules: every operation refines a byte-string FIFO with exact bytes_in/bytes_out "
-         "accounting, faults either preserve that or surface an error without duplicating or reordering "
-         "bytes, and temp files / descriptors are exactly those held by chunks (none after reset); model tied "
-         "to the C by differential op-sequence runs of the real chunk.c under ASan/UBSan with interposed "
-         "pwritev/pwrite/mkostemp",
+    text="Lean 4 theorems over an executable chunk-level model of src/chunk.c (append family, get/use_memory, steal, "
+         "steal_with_tempfiles incl. pwritev partial-write recovery and to_tempfiles, append_mem_to_tempfile, "
+         "mark_written, compact, remove_empty, peek/read/read_squash, append_cq_range, reset) with scripted "
+         "write/mkostemp fault schedules: an inductive invariant (exact bytes_in/bytes_out accounting, one owning "
+         "chunk per temp file spanning the whole file) holds after every history; every operation refines a "
+         "byte-string FIFO (c17_refines_fifo), a spill that reports an error leaves a prefix and removes exactly "
+         "what it moved (c17_fault_safe), descriptors and temp-file names are conserved and none remain after "
+         "reset (c17_resources_conserved, c17_reset_releases_all); model tied to the C by differential op-sequence "
+         "runs of the real chunk.c under ASan/UBSan with interposed pwritev/pwrite/mkostemp",
     note="trusted: Lean kernel (+propext, Quot.sound, Classical.choice), hand-written model validated by the "
          "h_cq correspondence (chunk layout, counters, content CRC, temp-dir listing and descriptor count "
-         "after every operation), kernel file semantics (pwrite appends, unlinked files stay readable "
-         "through open descriptors); splice()/sendfile()/mmap paths and read faults are outside the model",
+         "after every operation), kernel file semantics (a failed write writes nothing, a short write a prefix, "
+         "unlinked files stay readable through open descriptors); splice()/sendfile()/mmap paths, read faults "
+         "and close() failures are outside the model; two queues",
     tech="Lean 4 proof over hand-written model + differential correspondence (in-process C harness, "
          "scripted I/O faults)",
     ref="6/C17")
@@ -483,12 +485,13 @@ def gen_fault_positions(exe, rng, nbase):
     return lines, npos
 
 
-def gen_exhaustive_small(depth):
-    """all op sequences of the given depth over a small op alphabet"""
+def gen_exhaustive_small(depth, nalpha=15):
+    """all op sequences of the given depth over the first `nalpha` ops of a
+    small op alphabet (quick: 10 ops, thorough: all 15)"""
     import itertools
-    alpha = ["am,0,1,700", "am,0,2,1100", "ab,0,3,1023", "af,0,0,10,50", "st,1,900", "sw,1,1500",
-             "mw,0,800", "mw,1,600", "mt,1,4,600", "cr,0,1,100,700", "cm,0,1500", "pk,1,2000", "st,0,300",
-             "re,0", "rd,1,1000"]
+    alpha = ["am,0,1,700", "am,0,2,1100", "af,0,0,10,50", "st,1,900", "sw,1,1500", "mw,1,600", "mt,1,4,600",
+             "cr,0,1,100,700", "st,0,300", "rd,1,1000",
+             "ab,0,3,1023", "mw,0,800", "cm,0,1500", "pk,1,2000", "re,0"][:nalpha]
     lines = []
     for t in itertools.product(alpha, repeat=depth):
         lines.append(header(1024, 1000, 2, "-", "-", [100]) + " " + " ".join(t))
@@ -526,7 +529,7 @@ ZERO_PROBES = [
     ("cq(0-length: steal of 0 bytes from a file chunk)",
      ["seq 1024 0 1 - - 100 ad,0,0,0,10 ad,1,0,10,20 st,0,0 pk,0,100 pk,1,100",
       "seq 1024 0 1 - - 100 am,0,1,10 ad,1,0,10,20 sw,0,0 pk,0,100",
-      "seq 1024 0 1 - - 100 af,1,0,0,50 st,0,0 pk,0,100"]),
+      "seq 1024 0 1 - - 100 ad,1,0,0,50 st,0,0 pk,0,100"]),
     ("cq(0-length: use_memory(0) on an empty last chunk)",
      ["seq 1024 0 1 - - - bo,0,1,0 gm,0,1,2,0 am,0,3,10 pk,0,100"]),
     ("cq(0-length: to_tempfiles with a trailing empty chunk)",
@@ -611,18 +614,18 @@ def run(ctx):
         return
     q = ctx.quick
     rng = ctx.rng
-    fpos, npos = gen_fault_positions(exe, rng, 60 if q else 600)
+    fpos, npos = gen_fault_positions(exe, rng, 40 if q else 600)
     streams = [
-        ("cq(hand-written + exhaustive small scope)", HAND + gen_exhaustive_small(3)),
-        ("cq(random op sequences, no faults)", gen_random(rng, 15000 if q else 150000, False)),
-        ("cq(random op sequences, fault schedules)", gen_random(rng, 15000 if q else 150000, True)),
+        ("cq(hand-written + exhaustive small scope)", HAND + gen_exhaustive_small(3, 10 if q else 15)),
+        ("cq(random op sequences, no faults)", gen_random(rng, 8000 if q else 150000, False)),
+        ("cq(random op sequences, fault schedules)", gen_random(rng, 8000 if q else 150000, True)),
         ("cq(every fault position in spill sequences)", fpos),
-        ("cq(64 KiB sizes)", gen_random(rng, 400 if q else 4000, False, big=True)
-         + gen_random(rng, 400 if q else 4000, True, big=True)),
-        ("cq(1 MiB temp files)", gen_megabyte(rng, 6 if q else 60)),
+        ("cq(64 KiB sizes)", gen_random(rng, 250 if q else 4000, False, big=True)
+         + gen_random(rng, 250 if q else 4000, True, big=True)),
+        ("cq(1 MiB temp files)", gen_megabyte(rng, 4 if q else 60)),
     ] + ZERO_PROBES + [
-        ("cq(0-length operations, random)", gen_random(rng, 3000 if q else 30000, False, zero=True, maxops=14)
-         + gen_random(rng, 3000 if q else 30000, True, zero=True, maxops=14)),
+        ("cq(0-length operations, random)", gen_random(rng, 1500 if q else 30000, False, zero=True, maxops=14)
+         + gen_random(rng, 1500 if q else 30000, True, zero=True, maxops=14)),
     ]
     for name, lines in streams:
         for l in lines:
@@ -630,7 +633,7 @@ def run(ctx):
                 ctx.dist[o.split(",")[0]] += 1
         # a hanging implementation (e.g. a corrupted chunk pool) must not stall the
         # check: it is killed and reported like a crash
-        limit = "60" if name.startswith("cq(0-length") else ("120" if q else "900")
+        limit = ("120" if q else "900")
         C.log("  stream %s: %d cases" % (name, len(lines)))
         # the 0-length streams run in one process: after a crash the rest of the
         # stream is not judged (one report per defect instead of misaligned noise)
@@ -638,11 +641,11 @@ def run(ctx):
                          stateless=not name.startswith("cq(0-length"))
     ctx.faults_fired += FIRED[0]
     ctx.exhaustive = False
-    ctx.notes.append("exhaustive: all op sequences of length 3 over a 15-op alphabet; in %d spill sequences of "
+    ctx.notes.append("exhaustive: all op sequences of length 3 over a %d-op alphabet; in %d spill sequences of "
                      "<= 8 ops every one of the %d temp-file write()/mkostemp() call positions (measured by a "
                      "dry run) x %d fault kinds, each also followed by a second fault; faults_fired = scheduled "
                      "non-ok syscall results actually consumed by the implementation in the fault streams"
-                     % (60 if q else 600, npos, len(FAULTS)))
+                     % (10 if q else 15, 40 if q else 600, npos, len(FAULTS)))
     ctx.rule = ("one case = a whole op sequence on two queues with a write/mkostemp fault schedule; after every "
                 "op the chunk layout, counters, content CRC, temp-dir listing and descriptor count of the real "
                 "chunk.c are compared with the Lean model and checked by the byte-string reference oracle; "
